@@ -279,6 +279,10 @@ def run(ctx) -> None:
     ctx.rule("C20.R11-stage-identifiers-normalised", "the status monitor accepts N, 'N' and 'stageN' as keys of the status report (it maps them through "
              "stage_identifier_to_stage_index); the loader, which looks the weights up by integer index, maps the keys through the same "
              "function first - otherwise weights given under 'stage0' are ignored and fallback entries are added next to them")
+    ctx.rule("C20.R12-one-dictionary-per-stage", "the loader replaces rejected weights by writing into the per-stage dictionaries of the status report; "
+             "those writes are preceded on every path by a loop that rebinds each entry of the report to a fresh dictionary - two stages "
+             "that share one dictionary (YAML anchors) would otherwise both receive the remainder meant for the last stage, and the "
+             "weights would no longer add up to one")
     ctx.rule("C20.R10-weights-in-stage-order", "the list the status monitor indexes by stage index is filled by a loop that runs in stage order "
              "(sorted(...) / range(...)), not in the order the status report happens to list its stages")
     ctx.rule("C20.R5-given-weights-kept", "the given weights are replaced only under the sum test or the sign test")
@@ -328,6 +332,44 @@ def run(ctx) -> None:
            "the fallback is assigned for every index of range(%s), the range the weights were read for" % n_expr if ok else
            "the fallback weights are not assigned over the same range the weights were read for (%s): some stage keeps its old weight "
            "and the weights no longer add up to one" % n_expr, construct="replacement loop over range(%s)" % n_expr)
+
+    # R12: the replacement writes through <report>[idx]['stage-weight']: every stage owns its dictionary by then
+    def canon(e: ast.AST) -> str:
+        if isinstance(e, ast.Name):
+            vs = match.assigned_value(idv, e.id)
+            if len(vs) == 1:
+                return source.src(vs[0])
+        return source.src(e)
+
+    def fresh_dict(v: ast.AST) -> bool:
+        return isinstance(v, (ast.Dict, ast.DictComp)) or (isinstance(v, ast.Call) and (call_name(v) or "").split(".")[-1] in ("dict", "copy", "deepcopy", "deep_copy"))
+    unshare: List[Tuple[ast.For, str]] = []
+    for lp in source.walk_own(idv):
+        if not isinstance(lp, ast.For) or not isinstance(lp.target, ast.Name):
+            continue
+        body = lp.body
+        if len(body) == 1 and isinstance(body[0], ast.If) and not body[0].orelse and isinstance(body[0].test, ast.Call) and call_name(body[0].test) == "isinstance":
+            body = body[0].body
+        for st in body:
+            if isinstance(st, ast.Assign) and len(st.targets) == 1 and isinstance(st.targets[0], ast.Subscript) and isinstance(st.targets[0].slice, ast.Name) \
+                    and st.targets[0].slice.id == lp.target.id and fresh_dict(st.value) and canon(st.targets[0].value) in source.src(lp.iter).replace(
+                        source.src(st.targets[0].value), canon(st.targets[0].value)):
+                unshare.append((lp, canon(st.targets[0].value)))
+    n12 = 0
+    for sn in replaced:
+        tgt = next(t for t in sn.ast.targets if isinstance(t, ast.Subscript) and isinstance(t.slice, ast.Constant) and t.slice.value == "stage-weight")
+        if not isinstance(tgt.value, ast.Subscript):
+            continue
+        n12 += 1
+        cont = canon(tgt.value.value)
+        heads = [n for n in cfg.nodes if n.kind == "for" and any(n.ast is lp and c_ == cont for (lp, c_) in unshare)]
+        ok = bool(heads) and cfg.every_path_to_passes(sn, gates=heads)
+        ctx.ob("C20.R12-one-dictionary-per-stage", sn.ast, ok,
+               "every stage was given its own dictionary (a loop over the report rebinding each entry to a fresh dict) before this write" if ok else
+               "the replacement weight is written through %s, a dictionary that another stage may share (YAML anchors: 'status-report: {0: &w "
+               "{stage-weight: 0.3}, 1: *w, 2: *w}'): the remainder written for the last stage lands in all of them and the loaded weights are "
+               "0.334 + 0.334 + 0.334" % short(tgt.value, 50), construct="replacement write <- per-stage dictionaries")
+    ctx.floor("C20.R12-one-dictionary-per-stage", n12, 1, "replacement writes of a stage weight through an entry of the status report")
 
     # R3 / R4: scale constant and the exact complement
     scales: Dict[str, List[Tuple[ast.AST, float]]] = {}
@@ -445,13 +487,19 @@ def run(ctx) -> None:
         ordered = isinstance(it, ast.Call) and call_name(it) in ("sorted", "range")
         if ordered and call_name(it) == "sorted":
             keys = [k.value for k in it.keywords if k.arg == "key"]
-            ordered = all("stage_index" in source.src(k) or source.src(k) == "int" for k in keys) and not any(
+            numeric = lambda e: any("stage_index" in source.src(x) or source.src(x) == "int" for x in (e, match.resolve_local(smi, e)) if x is not None)
+            arg0 = it.args[0] if it.args else None
+            # without a key the order is numeric only when the elements are numbers: stage identifiers are N, 'N' or 'stageN', and
+            # names sort as 'stage0', 'stage1', 'stage10', 'stage11', 'stage2' ...
+            numbers = isinstance(arg0, (ast.ListComp, ast.GeneratorExp, ast.SetComp)) and isinstance(arg0.elt, ast.Call) and numeric(arg0.elt.func)
+            ordered = (bool(keys) or numbers) and all(numeric(k) for k in keys) and not any(
                 k.arg == "reverse" and not (isinstance(k.value, ast.Constant) and k.value.value is False) for k in it.keywords)
         ctx.ob("C20.R10-weights-in-stage-order", lp, ordered,
                "the weights are appended in stage order (%s)" % short(it, 60) if ordered else
                "the weights are appended in the iteration order of %s while CheckStatus reads stageWeights[<stage index>]: a status report "
                "that lists stage 1 before stage 0 (the loader appends the entries it adds, e.g. for {1: {'stage-weight': 1.0}}) gives stage 0 "
-               "the weight of stage 1" % short(it, 40), construct="stage-weight fill loop <- stage order")
+               "the weight of stage 1; sorting stage NAMES puts 'stage10' before 'stage2', so from eleven stages on the weights are permuted"
+               % short(it, 40), construct="stage-weight fill loop <- stage order")
     for rn in repl2:
         v = rn.ast.value
         ok = isinstance(v, ast.BinOp) and isinstance(v.op, ast.Mult) and isinstance(v.left, ast.List) and len(v.left.elts) == 1
